@@ -128,19 +128,21 @@ func c08(p *model.Prog, r *report.Result) {
 				ext = true
 			}
 		}
-		if !marker && !ext {
-			continue // the abs-vs-delta choice, not the field layout
-		}
 		nW++
 		what := "marker"
 		if ext {
 			what = "extended-field"
 		}
+		if !marker && !ext {
+			// the choice between absolute timestamp (extended field repeated on continuation
+			// chunks) and delta: must classify 0xFFFFFF like the two field comparisons do
+			what = "absolute-on-continuation"
+		}
 		atEq := cmpAt(op, maxTs, maxTs, right)
 		r.Check(atEq, "C08.R1", fkey(calc, "boundary", what), p.InstrPos(iff),
 			"writer: timestamp==0xFFFFFF takes the '"+what+"' branch", "writer: a timestamp of exactly 0xFFFFFF is written as a plain 24-bit value without the "+what+", but the reader treats 0xFFFFFF as 'extended field follows': the message is misparsed")
 	}
-	if nW < 2 {
+	if nW < 3 {
 		r.Bad("C08.R1", fkey(calc, "boundary", "floor"), p.Pos(calc.Pos()), "calcHeader no longer selects the marker and the extended field by comparing with maxTimestampInMessageHeader")
 	}
 	tsField := p.Field("pkg/rtmp", "Stream", "timestamp")
